@@ -849,6 +849,57 @@ func ksCatalogue(ks *tinkpb.Keyset) []ksMut {
 			}
 		}
 	}
+	// four entries whose ids are spread over the whole 32-bit range (differences beyond 2^31 in both directions), one id
+	// listed twice, in every arrangement: duplicate detection must not depend on the ids being close or adjacent
+	spread := []uint32{0x10000000, 0x70000000, 0xd0000000}
+	for dup := range spread {
+		var multiset []uint32
+		for i, v := range spread {
+			multiset = append(multiset, v)
+			if i == dup {
+				multiset = append(multiset, v)
+			}
+		}
+		seen := map[[4]uint32]bool{}
+		var perm func(cur []uint32, used int)
+		perm = func(cur []uint32, used int) {
+			if len(cur) == 4 {
+				var a [4]uint32
+				copy(a[:], cur)
+				if seen[a] {
+					return
+				}
+				seen[a] = true
+				add(fmt.Sprintf("duplicate:spread-ids=%x", a), false, func(ks *tinkpb.Keyset, t int) {
+					proto0 := ks.Key[t]
+					ks.Key = nil
+					for _, id := range a {
+						c := proto.Clone(proto0).(*tinkpb.Keyset_Key)
+						c.KeyId, c.Status = id, tinkpb.KeyStatusType_ENABLED
+						ks.Key = append(ks.Key, c)
+					}
+					ks.PrimaryKeyId = spread[(dup+1)%3]
+				})
+				return
+			}
+			for i, v := range multiset {
+				if used&(1<<i) == 0 {
+					perm(append(append([]uint32{}, cur...), v), used|1<<i)
+				}
+			}
+		}
+		perm(nil, 0)
+	}
+	add("control:four-spread-ids", false, func(ks *tinkpb.Keyset, t int) {
+		proto0 := ks.Key[t]
+		ks.Key = nil
+		for _, id := range []uint32{0x70000000, 0x10000000, 0xd0000000, 0x40000000} {
+			c := proto.Clone(proto0).(*tinkpb.Keyset_Key)
+			c.KeyId, c.Status = id, tinkpb.KeyStatusType_ENABLED
+			ks.Key = append(ks.Key, c)
+		}
+		ks.PrimaryKeyId = 0xd0000000
+	})
 	// valid controls
 	add("control:second-enabled-key-added", false, func(ks *tinkpb.Keyset, t int) {
 		c := proto.Clone(ks.Key[t]).(*tinkpb.Keyset_Key)
